@@ -484,7 +484,7 @@ def robustness_search(rng, n_cfg, n_long):
             a = rng.uniform(t0, t1)
             adversarial.append((a, min(t1, a + rng.choice([1e-9, 1e-12, 1e-15, 3e-17]))))
         adversarial += [(t1 - 4e-14, t1), (t0, t0 + 1e-13), (t0, t0), (t1, t1)]
-        r = run(cfg, hist + adversarial, 'random+adversarial', depth=True)
+        r = run(cfg, hist + adversarial, 'random+adversarial', depth=(st['configs'] < 2))
         st['configs'] += 1
         if r:
             fails.append(r)
@@ -493,9 +493,9 @@ def robustness_search(rng, n_cfg, n_long):
                dict(cache_size=1), dict(halfway=True, tol=1e-3, dt=None), dict(halfway=True, tol=1e-6, dt=None)]:
         cfg = dict(t0=0.0, span=1.0, size=(2,), levy='space-time', entropy=7, cache_size=45, dt=None, tol=0.0, halfway=False)
         cfg.update(kw)
-        n = 300
+        n = 130
         hist = [(i / n, (i + 1) / n) for i in range(n)]
-        r = run(cfg, hist + list(reversed(hist)), f'constructor corner {kw}', depth=True)
+        r = run(cfg, hist + list(reversed(hist[-30:])), f'constructor corner {kw}', depth=True)
         st['configs'] += 1
         if r:
             fails.append(r)
@@ -510,3 +510,89 @@ def robustness_search(rng, n_cfg, n_long):
             if r:
                 fails.append(r)
     return fails[:3], st
+
+
+def wrapper_search(rng, n, tol=1e-8):
+    """C03 through BrownianPath / BrownianTree (non-zero w0, point evaluations interleaved with interval queries)."""
+    fails, st = [], dict(objects=0, checks=0)
+    for _ in range(n):
+        shape = rng.choice([(), (3,), (2, 3)])
+        g = torch.Generator().manual_seed(rng.randrange(10 ** 6))
+        w0 = torch.randn(shape, generator=g, dtype=torch.float64) + 1.5
+        kind = rng.choice(['path', 'tree'])
+        ent = rng.randrange(1 << 30)
+        if kind == 'path':
+            torch.manual_seed(ent)
+            import numpy as np
+            np.random.seed(ent % (2 ** 31))
+            bm = BrownianPath(t0=0.0, w0=w0.clone())
+            t1 = 1.0
+        else:
+            bm = BrownianTree(t0=0.0, w0=w0.clone(), t1=1.0, entropy=ent, tol=1e-4)
+            t1 = 1.0
+        times = [0.0, t1, 0.5, 0.25, 0.75, 0.125] + [round(rng.random(), 4) for _ in range(4)]
+        bad = None
+        seen = {}
+        for _ in range(25):
+            r = rng.random()
+            if r < 0.5:
+                t = rng.choice(times)
+                v = bm(t)
+                st['checks'] += 1
+                if t in seen and not torch.equal(seen[t], v):
+                    bad = f'point value at t={t} changed on re-evaluation'
+                    break
+                seen[t] = v.clone()
+            else:
+                s, u, t = sorted(rng.choice(times) for _ in range(3))
+                d = maxabs(bm(s, t) - (bm(s, u) + bm(u, t)))
+                d2 = maxabs((bm(t) - bm(s)) - bm(s, t))
+                st['checks'] += 2
+                if d > tol or d2 > tol:
+                    bad = f'additivity defect {d} / point-difference defect {d2} for (s,u,t)=({s},{u},{t})'
+                    break
+        if bad is None and maxabs(bm(0.0) - w0) > tol:
+            bad = 'W(t0) != w0'
+        st['objects'] += 1
+        if bad:
+            fails.append(dict(kind='wrapper', wrapper=kind, shape=list(shape), entropy=ent, why=bad))
+            if len(fails) >= 2:
+                break
+    return fails, st
+
+
+def seed_structure_search(rng, n):
+    """C04 'every node draws its own noise': spawn key = binary number spelled by the node's path, depth = path length,
+    checked on real trees that are deeper than 64 levels (so that truncated keys cannot hide)."""
+    fails, st = [], dict(trees=0, nodes=0, max_depth=0)
+    for k in range(n):
+        cfg = dict(t0=0.0, span=1.5, size=(1,), levy=rng.choice(['none', 'space-time']), entropy=rng.randrange(1 << 30),
+                   cache_size=rng.choice([None, 45, 90]), dt=rng.choice([0.01, None, 0.02]), tol=0.0, halfway=False)
+        bm = build(cfg)
+        steps = rng.choice([149, 220])
+        for i in range(steps):
+            query(bm, 1.5 * i / steps, 1.5 * (i + 1) / steps, cfg)
+        seen = {}
+        stack = [(bm, 0, 0)]
+        bad = None
+        while stack and bad is None:
+            node, key, depth = stack.pop()
+            if getattr(node, '_midway', None) is None:
+                continue
+            st['nodes'] += 1
+            st['max_depth'] = max(st['max_depth'], depth)
+            if node._spawn_key != key or node._depth != depth:
+                bad = f'node at depth {depth}: spawn key/depth {node._spawn_key}/{node._depth}, expected {key}/{depth}'
+            sig = (node._W_seed, node._H_seed, node._left_a_seed, node._right_a_seed)
+            if len(set(sig)) != 4:
+                bad = f'node at depth {depth}: its four seeds are not distinct: {sig}'
+            if (node._spawn_key, node._depth) in seen:
+                bad = f'two nodes share (spawn_key, depth) = {(node._spawn_key, node._depth)}'
+            seen[(node._spawn_key, node._depth)] = True
+            stack.append((node._left_child, 2 * key, depth + 1))
+            stack.append((node._right_child, 2 * key + 1, depth + 1))
+        st['trees'] += 1
+        if bad:
+            fails.append(dict(kind='seed-structure', config=_ser(cfg), steps=steps, why=bad))
+            break
+    return fails, st
